@@ -640,6 +640,11 @@ func (e *ALPNExtension) Read(b []byte) (int, error) {
 	stringsLength := 0
 	for _, s := range e.AlpnProtocols {
 		l := len(s)
+		if l == 0 {
+			// ProtocolName<1..2^8-1>; the check of Config.NextProtos at handshake time does not see
+			// this list when another extension (NPN) has replaced Config.NextProtos since
+			return 0, errors.New("ALPN protocol name is empty")
+		}
 		if l > 255 {
 			return 0, errors.New("ALPN protocol name longer than 255 bytes")
 		}
